@@ -160,7 +160,7 @@ def intended_tables(rep, shapes):
         for (nr, nt, nc, d) in shapes:
             f.write(json.dumps({"nr": nr, "nt": nt, "nc": nc, "dir": d}) + "\n")
     open(cfg, "w").write('SPECIFICATION Spec\nCONSTANTS\n  NrSet = {}\n  NtSet = {}\n  Ops = {%s}\n  EmitTables = TRUE\n  FIXED = {"F19", "F21"}\n'
-                         'INVARIANTS EpochDisjoint AllRadialOnce AllCirclesOnce Emit\n' % ", ".join('"%s"' % o for o in ZEBRA_OPS))
+                         'INVARIANTS EpochDisjoint AllRadialOnce AllCirclesOnce GiveSolvesOnce Emit\n' % ", ".join('"%s"' % o for o in ZEBRA_OPS))
     r = vlib.tlc("ZebraSchedule", cfg, heap="8g", tag="zebraemit", timeout=1500, env={"ZSHAPES": sfile}, workers=8)
     rep.add_tlc(r, "ZebraSchedule.tla intended tables for %d shapes x %d operators" % (len(shapes), len(ZEBRA_OPS)))
     if r.rc != 0:
@@ -174,7 +174,7 @@ def intended_tables(rep, shapes):
     return tabs, None
 
 
-ZEBRA_OPS = ("residualGive", "smootherTake", "xsmootherTake", "residualTake", "smootherGive")
+ZEBRA_OPS = ("residualGive", "smootherTake", "xsmootherTake", "residualTake", "smootherGive", "xsmootherGive")
 
 
 def record_ops(nr, nt, nc, dirbc, threads):
@@ -213,16 +213,24 @@ def observe_ops(nr, nt, nc, dirbc, threads, rec=None):
     for op, its in ops.items():
         loops = {}
         own = {"residualGive": "ResidualGive/residualGive.cpp", "smootherTake": "SmootherTake/smootherSolver.cpp",
-               "xsmootherTake": "ExtrapolatedSmootherTake/smootherSolver.cpp", "residualTake": "ResidualTake/residualTake.cpp", "smootherGive": "SmootherGive/smootherSolver.cpp"}.get(op, "@")
+               "xsmootherTake": "ExtrapolatedSmootherTake/smootherSolver.cpp", "residualTake": "ResidualTake/residualTake.cpp", "smootherGive": "/SmootherGive/smootherSolver.cpp", "xsmootherGive": "ExtrapolatedSmootherGive/smootherSolver.cpp"}.get(op, "@")
         for it in its:
             if own not in it["f"]:
                 continue      # helper regions (vector copies) are separate parallel regions
             key = (it["f"], it["l"])
-            d = loops.setdefault(key, {"ep": it["ep"], "tasks": {}})
+            d = loops.setdefault(key, {"ep": it["ep"], "reg": it.get("reg", 0), "tasks": {}})
             w = {loc(c) for c in it["w"]} - {None}
             r = {loc(c) for c in it["r"]} - {None}
             d["tasks"][it["i"]] = (w, r)
         out[op] = [loops[k] for k in sorted(loops, key=lambda k: (k[0], k[1]))]
+        # an operator made of several parallel regions: the join of a region is a barrier, epochs are numbered through
+        off, prev, top = 0, None, -1
+        for d in out[op]:
+            if prev is not None and d["reg"] != prev:
+                off = top + 1
+            prev = d["reg"]
+            d["ep"] += off
+            top = max(top, d["ep"])
     return out, None
 
 
